@@ -75,32 +75,81 @@ fn enumeral(input: Input<'_>) -> ParserResult<'_, EnumeralInput<'_>> {
     .parse(input)
 }
 
-fn enumerals<'a>(
-    start_index: usize,
-) -> impl Parser<Input<'a>, Output = Vec<Enumeral>, Error = ErrorTree<'a>> {
+/// An enumeration item as written in the source: identifier, trailing comment and,
+/// for a `NamedNumber`, the explicit number.
+type RawEnumeral = (String, Option<String>, Option<i128>);
+
+fn raw_enumerals<'a>(
+) -> impl Parser<Input<'a>, Output = Vec<RawEnumeral>, Error = ErrorTree<'a>> {
     fold_many0(
         enumeral,
-        Vec::<Enumeral>::new,
-        move |mut acc, (name, index, _, comments)| {
-            acc.push(Enumeral {
-                name: name.into(),
-                description: comments.map(|c| c.into()),
-                index: index.unwrap_or((acc.len() + start_index) as i128),
-            });
+        Vec::<RawEnumeral>::new,
+        |mut acc, (name, index, _, comments)| {
+            acc.push((name.into(), comments.map(|c| c.into()), index));
             acc
         },
     )
 }
 
+/// Assigns the enumeration values as specified in ITU-T X.680 (02/2021) 20.3 - 20.6:
+/// * explicit numbers are kept,
+/// * identifier-only items of the root are assigned successive integers starting with
+///   `start_index`, excluding the numbers used explicitly in the root,
+/// * an identifier-only addition is assigned the smallest number that is not used by any
+///   `preceding` (root) item and that is larger than all preceding additions.
+fn assign_enumeral_indices(
+    preceding: &[Enumeral],
+    items: Vec<RawEnumeral>,
+    is_addition: bool,
+    start_index: i128,
+) -> Vec<Enumeral> {
+    let mut used: Vec<i128> = preceding.iter().map(|e| e.index).collect();
+    if !is_addition {
+        used.extend(items.iter().filter_map(|(_, _, index)| *index));
+    }
+    let mut next = start_index;
+    let mut enumerals = Vec::with_capacity(items.len());
+    for (name, description, explicit_index) in items {
+        let index = explicit_index.unwrap_or_else(|| {
+            while used.contains(&next) && next < i128::MAX {
+                next += 1;
+            }
+            next
+        });
+        used.push(index);
+        if is_addition {
+            next = next.max(index.saturating_add(1));
+        }
+        enumerals.push(Enumeral {
+            name,
+            description,
+            index,
+        });
+    }
+    enumerals
+}
+
+#[cfg(test)]
+fn enumerals<'a>(
+    start_index: usize,
+) -> impl Parser<Input<'a>, Output = Vec<Enumeral>, Error = ErrorTree<'a>> {
+    map(raw_enumerals(), move |items| {
+        assign_enumeral_indices(&[], items, false, start_index as i128)
+    })
+}
+
 fn enumerated_body(input: Input<'_>) -> ParserResult<'_, EnumeralBody> {
     in_braces(|input| {
-        let (input, root_enumerals) = enumerals(0).parse(input)?;
+        let (input, root_enumerals) = raw_enumerals().parse(input)?;
+        let root_enumerals = assign_enumeral_indices(&[], root_enumerals, false, 0);
         let (input, ext_marker) = opt(terminated(
             extension_marker,
             skip_ws_and_comments(opt(char(COMMA))),
         ))
         .parse(input)?;
-        let (input, ext_enumerals) = opt(enumerals(root_enumerals.len())).parse(input)?;
+        let (input, ext_enumerals) = opt(raw_enumerals()).parse(input)?;
+        let ext_enumerals =
+            ext_enumerals.map(|items| assign_enumeral_indices(&root_enumerals, items, true, 0));
         Ok((input, (root_enumerals, ext_marker, ext_enumerals)))
     })
     .parse(input)
